@@ -80,6 +80,13 @@ int main(int argc, char **argv) {
                 Tok l; l.kind = 0; l.cond = cond; l.text = afterText; pattern += after; toks.push_back(l); continue; }
             pattern += ph + specText(t.spec) + "}"; toks.push_back(t);
         }
+        // documented: "%%" is a literal '%' wherever it stands in literal text -- also behind a placeholder that is never closed (its "%{"
+        // is then ordinary text).  One unterminated placeholder at the END of the pattern, followed by literal text without '}'.
+        if (rnd(5) == 0) {
+            Tok l; l.kind = 0; l.cond = cond; const char *heads[] = {"%{type ", "%{oops", "%{", "%{message:<5"}; QString head = heads[rnd(4)]; pattern += head; l.text = head;
+            int extra = rnd(3); for (int e = 0; e < extra; ++e) { QString frag = lits[rnd(lits.size())]; if (frag.contains('}')) continue; pattern += frag; QString t = frag; t.replace("%%", "%"); l.text += t; }
+            if (!toks.empty() && toks.back().kind == 0 && toks.back().cond == cond) toks.back().text += l.text; else toks.push_back(l);
+        }
         PatternFormatter pf(pattern);
         for (int vi = 0; vi < vals.size(); ++vi) for (int ty = 0; ty < 5; ++ty) {
             if (ty == 3) continue;                                      // (fatal: nothing special for the formatter; skipped to keep runs short)
